@@ -15,11 +15,7 @@ EXTENDS ChunkAlgebra
 (***************************************************************************)
 (* C13 slice algebra                                                       *)
 (***************************************************************************)
-OptInts(lo, hi) == {None} \cup (lo..hi)
-Steps(smax) == {None} \cup {s \in (-smax)..smax : s # 0}
 
-SliceIx(a, b, s) == [k |-> "slice", start |-> a, stop |-> b, step |-> s]
-IntIx(i) == [k |-> "int", i |-> i]
 
 \* Input domains are emitted as compact integer tuples (the driver rebuilds the
 \* records): a slice is the triple <<start, stop, step>>.
@@ -90,12 +86,6 @@ ComposeVerdict(c) ==
 (***************************************************************************)
 (* Grids                                                                   *)
 (***************************************************************************)
-GridsOf(shape) ==
-  CASE Len(shape) = 0 -> {<<>>}
-    [] Len(shape) = 1 -> {<<a>> : a \in Chunkings(shape[1])}
-    [] Len(shape) = 2 -> {<<a, b>> : a \in Chunkings(shape[1]), b \in Chunkings(shape[2])}
-    [] Len(shape) = 3 -> {<<a, b, c>> : a \in Chunkings(shape[1]), b \in Chunkings(shape[2]), c \in Chunkings(shape[3])}
-ShapeOfGrid(g) == [a \in 1..Len(g) |-> SumSeq(g[a])]
 
 (***************************************************************************)
 (* C15 rechunk plans                                                       *)
